@@ -398,6 +398,8 @@ func fixedPrograms() [][]structSpec {
 		{{name: "Refs", fields: []fieldSpec{{"p", kPtr, ""}, {"q", kPtr, ""}, {"s", kSlice, ""}, {"t", kSlice, ""}, {"m", kMap, ""}}}},
 		{{name: "Wide", fields: wideFields(21)}},
 		{{name: "Mixed", fields: []fieldSpec{{"Id", kInt, ""}, {"name", kString, ""}, {"_c", kBool, ""}, {"Data", kSlice, ""}, {"cb", kFunc, ""}}, json: true, labelled: false}},
+		// field names that coincide with identifiers the generator uses itself (receiver r, parameters t/m/v, ok)
+		{{name: "Names", fields: []fieldSpec{{"r", kInt, ""}, {"t", kString, ""}, {"m", kInt, ""}, {"v", kOption, ""}, {"ok", kBool, ""}}}},
 		{{name: "GenRefs", fields: []fieldSpec{{"v", kTypeParam, ""}, {"p", kPtr, ""}, {"w", kTypeParam, ""}}, generic: true}},
 	}
 }
